@@ -81,9 +81,9 @@ def step_term(s):
     (name, arg), = s.items()
     if name == "flags":
         return "KFlags %d" % arg
-    if name == "acd":
+    if name in ("acd", "acd_raw"):
         k = arg["key"]
-        return "KAcd %s %s %s %s %s %s" % (hexlit(arg["aaguid"]), hexlit(arg["id"]), zlit(k["crv"]),
+        return ("KAcd" if name == "acd" else "KAcdRaw") + " %s %s %s %s %s %s" % (hexlit(arg["aaguid"]), hexlit(arg["id"]), zlit(k["crv"]),
                                            hexlit(k["x"]), hexlit(k["y"]), opt(k["alg"], zlit))
     if name == "mc":
         return "KMc %s" % opt(arg, lambda a: "(%s, %s)" % (
@@ -224,6 +224,8 @@ def gen_encode_cases(run):
             steps.append({"raw": raws[i % len(raws)].hex() if i % 7 else None})
         if rng.random() < 0.5:
             steps.append(gen_acd(rng, rng.choice([0, 16])))
+        elif rng.random() < 0.6:
+            steps.append({"acd_raw": gen_acd(rng, rng.choice([0, 16, 65536 if i % 9 == 0 else 20]), 0x33)["acd"]})
         if rng.random() < 0.4:
             steps += gen_ext(rng, rng.choice(EXT_VARIANTS[1:]))
         rng.shuffle(steps)
@@ -357,7 +359,7 @@ def pick_encodings(run, enc_cases, enc_out, n):
     for c, o in zip(enc_cases, enc_out):
         if "bytes" not in o or len(o["bytes"]) > 2 * 420:
             continue
-        if any("raw" in s or ("flags" in s and s["flags"] & ~29) for s in c["steps"]):
+        if any("raw" in s or "acd_raw" in s or ("flags" in s and s["flags"] & ~29) for s in c["steps"]):
             continue
         acds = [s["acd"] for s in c["steps"] if "acd" in s]
         sig = (bool(acds), len(acds[-1]["id"]) // 2 if acds else -1, acds[-1]["key"]["alg"] is None if acds else None,
